@@ -804,6 +804,16 @@ def arg_cmp_by_name(a, b):
     return natural_cmp(a, b)
 
 
+def const_key(b, label):
+    """Sort key of a generic constant by the constant type's own ordering."""
+    ty = b.get("const_ty") or "usize"
+    if ty == "char":
+        return ord(label)
+    if ty == "bool":
+        return 1 if label == "true" else 0
+    return int(label)
+
+
 class DNode:
     """A node of the expected display tree."""
     def __init__(self, name, kind, loc, children=None, case=None, ignored=False, const=None, arg_index=None):
@@ -921,14 +931,14 @@ def expected_tree(model, sel, action, flag, attr="kind", reverse=False, runner=N
                 for cv in b["consts"]:
                     ccases = [c for c in tcs_cases if c["const"] == cv]
                     if ccases:
-                        n = leafs(cv, (loc, decl_index(ccases[0])), ccases, const=int(cv))
+                        n = leafs(cv, (loc, decl_index(ccases[0])), ccases, const=const_key(b, cv))
                         tnode.children.append(n)
         else:
             labels = b["types"] if b["types"] is not None else b["consts"]
             for lb in labels:
                 lc = [c for c in cs if (c["type"] or c["const"]) == lb]
                 if lc:
-                    n = leafs(lb, (loc, decl_index(lc[0])), lc, const=int(lb) if b["consts"] is not None else None)
+                    n = leafs(lb, (loc, decl_index(lc[0])), lc, const=const_key(b, lb) if b["consts"] is not None else None)
                     gnode.children.append(n)
 
     def finish(node):
@@ -1383,7 +1393,63 @@ def check_c08(tier, seed, chk):
     return [res]
 
 
-CHECKS = {"C12": check_c12, "C13": check_c13, "C14": check_c14, "C17": check_c17, "C20": check_c20, "C16": check_c16, "C15": check_c15, "C03": check_c03, "C08": check_c08}
+# ----------------------------------------------------------------------------------------
+# C02 / C10 (end to end) -- exact allocation figures through the real global AllocProfiler
+# ----------------------------------------------------------------------------------------
+
+def bits_to_floats(bits):
+    import struct
+    return [struct.unpack("<d", struct.pack("<Q", b))[0] for b in bits]
+
+
+def check_alloc(tier, seed, chk, prop):
+    binary, model = ensure_built(tier, chk)
+    res = new_result("zoo-" + prop, tier)
+    t0 = time.time()
+    cases = [c for c in model["cases"] if c["path"].startswith("zoo::alc::")]
+    variants = [[], ["--sample-count", "5"], ["--threads", "1,2", "--sample-count", "4", "--sample-size", "3"], ["--sample-size", "1"]]
+
+    def one(extra):
+        return extra, run_zoo(binary, ["--bench", "--timer", "tsc"] + extra + ["^zoo::alc::"], want_stats=True, clock=CLOCK, timeout=300)
+
+    for extra, r in pmap(one, variants):
+        count_run(res, r, len(r.stats))
+        desc = "zoo --bench --timer tsc %s ^zoo::alc::" % " ".join(extra)
+        if r.rc != 0 or not r.stats:
+            violation(res, {"check": "alloc-e2e", "class": "crash"}, "%s: exit %s, %d statistics blocks: %s" % (desc, r.rc, len(r.stats), r.err[-300:]), r)
+            continue
+        for k, st in enumerate(r.stats):
+            if st["sample_count"] == 0:
+                continue
+            ops = st["alloc_ops"]  # Grow, Shrink, Alloc, Dealloc
+            got = {
+                "alloc count": bits_to_floats(ops[2]["count_bits"]), "alloc bytes": bits_to_floats(ops[2]["size_bits"]),
+                "dealloc count": bits_to_floats(ops[3]["count_bits"]), "grow count": bits_to_floats(ops[0]["count_bits"]), "shrink count": bits_to_floats(ops[1]["count_bits"]),
+                "max alloc count": bits_to_floats(st["max_alloc"]["count_bits"]), "max alloc bytes": bits_to_floats(st["max_alloc"]["size_bits"]),
+            }
+            want = {"alloc count": [1.0] * 4, "alloc bytes": [32.0] * 4, "dealloc count": [0.0] * 4, "grow count": [0.0] * 4, "shrink count": [0.0] * 4,
+                    "max alloc count": [1.0] * 4, "max alloc bytes": [32.0] * 4}
+            bad = {f: (got[f], want[f]) for f in want if any(abs(a - b) > 1e-9 for a, b in zip(got[f], want[f]))}
+            if bad:
+                f0 = sorted(bad)[0]
+                violation(res, {"check": "alloc-e2e", "class": "figures", "field": f0},
+                          "%s: statistics block %d (samples %d, iters %d): each benchmarked call makes exactly one 32-byte allocation on its own thread (the input's 64 bytes are allocated before the start, outputs are dropped after the end), but (fastest, slowest, median, mean) per iteration are %s" % (
+                              desc, k, st["sample_count"], st["iter_count"], {f: bad[f][0] for f in bad}), r)
+    res["samples"] = [{"variants": [" ".join(v) for v in variants], "benches": [c["path"] for c in cases]}]
+    res["bounds"] = {"note": "real global AllocProfiler, real threads (T = 1 and 2), virtual clock; exact expected figures per iteration", "runs": len(variants), "tier_zoo": tier}
+    res["wall_s"] = time.time() - t0
+    return [res]
+
+
+def check_c02(tier, seed, chk):
+    return check_alloc(tier, seed, chk, "C02")
+
+
+def check_c10(tier, seed, chk):
+    return check_alloc(tier, seed, chk, "C10")
+
+
+CHECKS = {"C02": check_c02, "C10": check_c10, "C12": check_c12, "C13": check_c13, "C14": check_c14, "C17": check_c17, "C20": check_c20, "C16": check_c16, "C15": check_c15, "C03": check_c03, "C08": check_c08}
 
 
 def run(job, tier, seed, chk):
